@@ -558,7 +558,7 @@ func (c *c20gChild) probe(n int) string {
 }
 
 func runC20G(run *common.Run) {
-	run.Rule = "GCS half of C20, emulator in child processes built with the race detector (memory and file store). Part 'fuzz': case = one hostile HTTP request - a valid template of every endpoint (bucket create/get/delete, media / multipart / resumable upload incl. chunk PUT/POST and status query, metadata GET, media GET in three URL forms incl. an object whose metadata says gzip but whose bytes are not, list, patch, delete, compose with source preconditions, rewrite, batch) incl. object names that are not valid UTF-8 in every position of a request, perturbed structurally (parameters dropped / duplicated / junk / negative / huge, path segments dropped / duplicated / appended, bodies truncated, JSON type confusion incl. null sub-objects, multipart without boundary / one part / unterminated, Content-Range garbage, gzip header on non-gzip body, hostile proxy headers, unknown upload ids, damaged batch bodies) or at byte level on a raw TCP stream (bit flips, truncation, insertion, deletion incl. the HTTP framing) - followed by a probe (stored object intact, new upload + read succeed). Well-formed batches of 0-5 parts: one sub-response per part, each equal to the same request sent alone. Part 'mix': rounds of concurrent traffic (listing while deleting, same-name uploads/patches/deletes, bucket delete during uploads, concurrent chunks on one upload id, copies and composes in opposite directions over one pair of objects). Part 'stall': for every body-carrying endpoint a client sends the head and 0, 1, half or all-but-one bytes of the body and goes quiet; meanwhile eleven valid GETs of a second client (objects and bucket the stalled request names, listing) must be answered; then the body is completed and the stalled request must be answered too. Monitors: child exit, 'http: panic serving' / panic / fatal text on its stderr, race-detector reports with a frame in the emulator, a complete HTTP response, JSON bodies parse, error statuses produced by the emulator carry the {error:{code,message}} envelope with code == status, request hang (client watchdog 60 s), probe. Non-trivial = case answered with a 4xx/5xx (fuzz) / well-formed batch with >= 2 parts / mix round; distinct by case."
+	run.Rule = "GCS half of C20, emulator in child processes built with the race detector (memory and file store). Part 'fuzz': case = one hostile HTTP request - a valid template of every endpoint (bucket create/get/delete, media / multipart / resumable upload incl. chunk PUT/POST and status query, metadata GET, media GET in three URL forms incl. an object whose metadata says gzip but whose bytes are not, list, patch, delete, compose with source preconditions, rewrite, batch) incl. object names that are not valid UTF-8 in every position of a request, perturbed structurally (parameters dropped / duplicated / junk / negative / huge, path segments dropped / duplicated / appended, bodies truncated, JSON type confusion incl. null sub-objects, multipart without boundary / one part / unterminated, Content-Range garbage, gzip header on non-gzip body, hostile proxy headers, unknown upload ids, damaged batch bodies) or at byte level on a raw TCP stream (bit flips, truncation, insertion, deletion incl. the HTTP framing) - followed by a probe (stored object intact, new upload + read succeed). Well-formed batches of 0-5 parts: one sub-response per part, each equal to the same request sent alone. Part 'members': complete enumeration of (carrier of an object resource: multipart metadata part, resumable start + completing chunk, PATCH body alone / after valid members, compose destination, rewrite body) x (every member of the object resource + an unknown one) x (junk of the right JSON type but wrong content: base64 of 0-5/15-17/33 bytes, invalid base64, empty, huge, numbers as strings incl. negative and beyond 64 bits, impossible timestamps; and of every wrong type incl. nested nulls), each followed by metadata GET, media GET and listing of the object named, all of which must be answered. Part 'mix': rounds of concurrent traffic (listing while deleting, same-name uploads/patches/deletes, bucket delete during uploads, concurrent chunks on one upload id, copies and composes in opposite directions over one pair of objects). Part 'stall': for every body-carrying endpoint a client sends the head and 0, 1, half or all-but-one bytes of the body and goes quiet; meanwhile eleven valid GETs of a second client (objects and bucket the stalled request names, listing) must be answered; then the body is completed and the stalled request must be answered too. Monitors: child exit, 'http: panic serving' / panic / fatal text on its stderr, race-detector reports with a frame in the emulator, a complete HTTP response, JSON bodies parse, error statuses produced by the emulator carry the {error:{code,message}} envelope with code == status, request hang (client watchdog 60 s), probe. Non-trivial = case answered with a 4xx/5xx (fuzz) / well-formed batch with >= 2 parts / mix round; distinct by case."
 	run.Assumptions = []string{"net/http recovers handler panics per connection, so they are observed as 'http: panic serving' on the child's stderr plus a dropped connection", "raw byte streams that are not an HTTP request may be answered by closing the connection"}
 	scratch, err := os.MkdirTemp("", "verif-c20g-")
 	if err != nil {
@@ -566,9 +566,16 @@ func runC20G(run *common.Run) {
 		return
 	}
 	defer os.RemoveAll(scratch)
+	var early sync.WaitGroup
 	if run.WantSub("sweep") {
-		c20gSweep(run, scratch)
+		early.Add(1)
+		go func() { defer early.Done(); c20gSweep(run, scratch) }()
 	}
+	if run.WantSub("members") {
+		early.Add(1)
+		go func() { defer early.Done(); c20gMembers(run, scratch) }()
+	}
+	early.Wait()
 	if run.WantSub("fuzz") && !run.TooMany() {
 		c20gFuzz(run, scratch)
 	}
@@ -685,6 +692,188 @@ func c20gSweep(run *common.Run, scratch string) {
 			}
 			run.Count("parameter_sweep_requests", int64(n))
 		}(ki, kind)
+	}
+	wg.Wait()
+}
+
+// c20gObjectMembers: every member of the object resource (google.golang.org/api/storage/v1 Object), which is what the
+// metadata part of an upload, a PATCH body, the destination of a compose and the body of a rewrite are decoded into.
+var c20gObjectMembers = []string{"acl", "bucket", "cacheControl", "componentCount", "contentDisposition", "contentEncoding", "contentLanguage", "contentType", "crc32c", "customTime", "customerEncryption", "etag", "eventBasedHold", "generation", "hardDeleteTime", "id", "kind", "kmsKeyName", "md5Hash", "mediaLink", "metadata", "metageneration", "name", "owner", "restoreToken", "retention", "retentionExpirationTime", "selfLink", "size", "softDeleteTime", "storageClass", "temporaryHold", "timeCreated", "timeDeleted", "timeFinalized", "timeStorageClassUpdated", "updated", "noSuchMember"}
+
+// c20gMemberJunk: raw JSON values. Strings of every content class a member can be parsed as (base64 of 0..5, 15..17
+// and 33 bytes, invalid / unpadded / URL-safe base64, decimal numbers incl. negative / beyond 64 bits / non-numbers,
+// timestamps valid and impossible, empty, control characters, path-like, huge), then values of every other JSON type
+// incl. nested nulls. c20gMemberJunkMore is added at the thorough tier.
+var c20gMemberJunk = []string{
+	`""`, `"AA=="`, `"AAA="`, `"AAAA"`, `"AAAAAA=="`, `"AAAAAAA="`, `"AAAAAAAAAAAAAAAAAAAA"`, `"AAAAAAAAAAAAAAAAAAAAAA=="`, `"AAAAAAAAAAAAAAAAAAAAAAA="`, `"` + strings.Repeat("QUJD", 11) + `"`,
+	`"A"`, `"===="`, `"!!!!"`, `"AAAAAA"`, `"____-w=="`,
+	`"0"`, `"-1"`, `"9223372036854775807"`, `"9223372036854775808"`, `"-9223372036854775808"`, `"99999999999999999999999999"`, `"1e9"`, `" 5"`, `"abc"`,
+	`"2020-01-01T00:00:00Z"`, `"0000-00-00T00:00:00Z"`, `"9999-12-31T23:59:60.999999999+99:99"`,
+	`"\u0000"`, `"a\r\nb"`, `"../../x"`, `"gzip"`, `"` + strings.Repeat("h", 70000) + `"`,
+	`null`, `true`, `0`, `5`, `-1`, `1.5`, `1e30`, `18446744073709551616`,
+	`[]`, `[null]`, `[{}]`, `["x"]`, `[{"entity":null,"role":5}]`, `[null,{"entity":"e"}]`,
+	`{}`, `{"a":null}`, `{"a":5}`, `{"a":{"b":"c"}}`, `{"entity":null,"entityId":5}`, `{"encryptionAlgorithm":null,"keySha256":5}`, `{"mode":null,"retainUntilTime":"x"}`,
+}
+
+var c20gMemberJunkMore = []string{
+	`"/////w=="`, `"AA"`, `"AAA"`, `"AA==AA=="`, `"AAAA\n"`, `" AAAAAA=="`, `"1"`, `"10"`, `"18446744073709551616"`, `"1.5"`, `"0x10"`, `"+5"`, `"NaN"`, `"2020-01-01"`, `"T"`, `"\ud800"`, `"/"`,
+	`false`, `-9223372036854775809`, `[[]]`, `[5]`, `[{"entity":"allUsers","role":"READER","projectTeam":null}]`, `{"":""}`, `{"a":["b"]}`, `{"entity":"e","entityId":"i"}`, `{"mode":"Locked","retainUntilTime":"2020-01-01T00:00:00Z"}`,
+}
+
+// c20gMembers: complete enumeration of (member of the object resource x junk value x carrier of an object resource).
+// Carriers: the metadata part of a multipart upload, the metadata body of a resumable start followed - if a session
+// was opened - by the chunk that completes it, a PATCH body (the junk after valid members; thorough tier also alone),
+// the destination of a compose, the body of a rewrite. Every request must be answered (panic / process /
+// well-formedness monitors); every object a 2xx-answered carrier named must afterwards still get an answer from
+// metadata GET and media GET, and the bucket from a listing; the probe runs every 25 (member, junk) pairs.
+func c20gMembers(run *common.Run, scratch string) {
+	junks := c20gMemberJunk
+	carriers := []int{0, 1, 3, 4, 5}
+	if run.IsThorough() {
+		junks = append(append([]string(nil), junks...), c20gMemberJunkMore...)
+		carriers = []int{0, 1, 2, 3, 4, 5}
+	}
+	nsh := workers() / 2
+	var wg sync.WaitGroup
+	for ki, kind := range drive.Stores {
+		for sh := 0; sh < nsh; sh++ {
+			wg.Add(1)
+			go func(ki int, kind string, sh int) {
+				defer wg.Done()
+				tag := fmt.Sprintf("mb%d-%d", ki, sh)
+				var ch *c20gChild
+				start := func() bool {
+					var msg string
+					ch, msg = c20gStart(tag, kind, scratch)
+					if ch == nil {
+						run.Violation("members", ki, "cannot start child: "+msg, nil)
+						return false
+					}
+					if m := ch.fixture(); m != "" {
+						run.Violation("members", ki, m, nil)
+						return false
+					}
+					return true
+				}
+				js := [2]string{"Content-Type", "application/json"}
+				n, pairs := 0, 0
+				// monitored exchange; "" if the request was answered properly
+				exchange := func(q c20gReq) (c20gResp, string) {
+					rsp := ch.send(q)
+					n++
+					if !ch.alive() {
+						return rsp, "the emulator process died: " + ch.newPanics()
+					} else if p := ch.newPanics(); p != "" {
+						return rsp, "handler panic: " + clipN(p, 900)
+					}
+					return rsp, c20gWellFormed(q, rsp)
+				}
+				for mi, member := range c20gObjectMembers {
+					for ji, junk := range junks {
+						if (mi*len(junks)+ji)%nsh != sh {
+							continue
+						}
+						pairIdx := (ki*100+mi)*200 + ji
+						if !run.Want("members", pairIdx) || run.TooMany() {
+							continue
+						}
+						if ch == nil {
+							if !start() {
+								return
+							}
+							defer func() {
+								if ch != nil {
+									ch.stop()
+								}
+							}()
+						}
+						resource := func(valid string) []byte {
+							if member == "name" || valid == "" {
+								return []byte(`{"` + member + `":` + junk + `}`)
+							}
+							return []byte(`{` + valid + `,"` + member + `":` + junk + `}`)
+						}
+						bad := ""
+						var at c20gReq
+						var history []string
+						var touched []string
+						do := func(q c20gReq) c20gResp {
+							at = q
+							var rsp c20gResp
+							rsp, bad = exchange(q)
+							history = append(history, fmt.Sprintf("%s -> %d", clipN(q.String(), 300), rsp.status))
+							return rsp
+						}
+						for _, carrier := range carriers {
+							if bad != "" {
+								break
+							}
+							// the object the request names (unless the junk replaces the name)
+							target := fmt.Sprintf("mj%d.txt", carrier)
+							var q c20gReq
+							switch carrier {
+							case 0:
+								body := drive.MultipartBody("BOUND", resource(`"name":"`+target+`","contentType":"text/plain"`), "text/plain", []byte("multipart-data"))
+								q = c20gReq{Method: "POST", Target: "/upload/storage/v1/b/" + c20gB + "/o?uploadType=multipart", Hdr: [][2]string{{"Content-Type", "multipart/related; boundary=BOUND"}}, Body: body}
+							case 1:
+								q = c20gReq{Method: "POST", Target: "/upload/storage/v1/b/" + c20gB + "/o?uploadType=resumable", Hdr: [][2]string{js}, Body: resource(`"name":"` + target + `"`)}
+							case 2:
+								target = "a.txt"
+								q = c20gReq{Method: "PATCH", Target: "/storage/v1/b/" + c20gB + "/o/a.txt", Hdr: [][2]string{js}, Body: resource("")}
+							case 3:
+								target = "dir/c.txt"
+								q = c20gReq{Method: "PATCH", Target: "/storage/v1/b/" + c20gB + "/o/dir%2Fc.txt", Hdr: [][2]string{js}, Body: resource(`"metadata":{"k":"v"},"contentType":"text/x"`)}
+							case 4:
+								body := []byte(`{"sourceObjects":[{"name":"a.txt"},{"name":"dir/b.txt"}],"destination":` + string(resource(`"contentType":"text/plain"`)) + `}`)
+								q = c20gReq{Method: "POST", Target: "/storage/v1/b/" + c20gB + "/o/" + target + "/compose", Hdr: [][2]string{js}, Body: body}
+							default:
+								q = c20gReq{Method: "POST", Target: "/storage/v1/b/" + c20gB + "/o/dir%2Fb.txt/rewriteTo/b/" + c20gB + "/o/" + target, Hdr: [][2]string{js}, Body: resource(`"contentType":"text/plain"`)}
+							}
+							rsp := do(q)
+							status := rsp.status
+							if bad == "" && carrier == 1 && rsp.status >= 200 && rsp.status < 300 {
+								// a session was opened with this metadata: complete it, the junk is used at completion
+								loc := rsp.hdr.Get("Location")
+								if i := strings.LastIndex(loc, "upload_id="); i >= 0 {
+									rsp = do(c20gReq{Method: "PUT", Target: drive.SessionTarget(c20gB, loc[i+len("upload_id="):]), Hdr: [][2]string{{"Content-Range", "bytes 0-9/10"}}, Body: []byte("0123456789")})
+									run.Count(fmt.Sprintf("member_junk.resumable_sessions_completed.%dxx", rsp.status/100), 1)
+								}
+							}
+							if rsp.status >= 200 && rsp.status < 300 {
+								touched = append(touched, target)
+							}
+							run.Case(common.Hash64("members", kind, member, junk, fmt.Sprint(carrier)), status >= 400)
+							run.Count(fmt.Sprintf("member_junk.carrier%d.%dxx", carrier, status/100), 1)
+						}
+						for _, target := range touched {
+							if bad == "" {
+								do(c20gReq{Method: "GET", Target: "/storage/v1/b/" + c20gB + "/o/" + strings.ReplaceAll(target, "/", "%2F")})
+							}
+							if bad == "" {
+								do(c20gReq{Method: "GET", Target: "/storage/v1/b/" + c20gB + "/o/" + strings.ReplaceAll(target, "/", "%2F") + "?alt=media"})
+							}
+						}
+						if bad == "" && len(touched) > 0 {
+							do(c20gReq{Method: "GET", Target: "/storage/v1/b/" + c20gB + "/o?maxResults=50"})
+						}
+						pairs++
+						if bad == "" && pairs%25 == 0 {
+							at = c20gReq{Method: "probe"}
+							bad = ch.probe(pairs)
+						}
+						if bad != "" {
+							run.Violation("members", pairIdx, bad+" | store="+kind+" member="+member+" junk="+clipN(junk, 80)+" failing request="+clipN(at.String(), 800), map[string]any{"store": kind, "member": member, "junk": clipN(junk, 200), "requests": history})
+							ch.stop()
+							if !start() {
+								return
+							}
+						}
+					}
+				}
+				run.Count("member_junk_requests", int64(n))
+				run.Count("member_junk_pairs", int64(pairs))
+			}(ki, kind, sh)
+		}
 	}
 	wg.Wait()
 }
